@@ -195,7 +195,11 @@ def detour_grid(ctx, nd):
                     old = getattr(d, which)
                     setattr(d, which, tmp)
                     try:
-                        d(0.7)
+                        vd, infod = d(0.7)
+                        if not (which == 'method' and False):
+                            obs.append((dict(s, kw=dict(s['kw'], **{which: tmp}), x=0.7, detour_call=[which, tmp]),
+                                        {'value': hexify(vd), 'error_estimate': hexify(infod.error_estimate), 'final_step': hexify(infod.final_step),
+                                         'index': [int(i) for i in np.atleast_1d(infod.index).ravel()]}))
                     except Exception:   # noqa
                         pass
                     setattr(d, which, old)
@@ -203,6 +207,20 @@ def detour_grid(ctx, nd):
                     obs.append((dict(s, detour=[which, tmp]), {'value': hexify(val), 'error_estimate': hexify(info.error_estimate), 'final_step': hexify(info.final_step),
                                                               'index': [int(i) for i in np.atleast_1d(info.index).ravel()]}))
                     ctx.count(1, ('detour', which))
+    # objects built with a plain numeric step exist (and were called) before default-step objects are evaluated at |x| > 1
+    for h in (0.01, 1e-3):
+        dn = nd.Derivative(f, step=h, full_output=True)
+        dn(0.5)
+        nd.Gradient(eval(VFUNCS['sumsq'], {'np': np}), step=h)(np.array([0.5, 0.25]))
+        for cname, fs, kw, x in (('Derivative', fsrc, {'method': 'central'}, 5.0), ('Derivative', fsrc, {'method': 'forward', 'n': 2}, -4.0),
+                                 ('Derivative', fsrc, {'method': 'complex'}, 3.0), ('Gradient', VFUNCS['sumsq'], {'method': 'central'}, [2.0, 3.0]),
+                                 ('Hessdiag', VFUNCS['sumsq'], {'method': 'central'}, [2.0, -3.0])):
+            ff = eval(fs, {'np': np})
+            val, info = getattr(nd, cname)(ff, full_output=True, **kw)(np.array(x) if isinstance(x, list) else x)
+            obs.append(({'class': cname, 'fsrc': fs, 'kw': dict(kw), 'x': x, 'step': None, 'after': 'objects with a numeric step'},
+                        {'value': hexify(val), 'error_estimate': hexify(info.error_estimate), 'final_step': hexify(info.final_step),
+                         'index': [int(i) for i in np.atleast_1d(info.index).ravel()]}))
+            ctx.count(1, ('after-numeric-step', cname))
     return obs
 
 
